@@ -217,6 +217,27 @@ def sym_sqrt(x):
     return SymReal(r)
 
 
+def sym_root(x, q):
+    """x ** (1/q) for x >= 0 (numpy/numba give nan for a negative base): let-bound r >= 0, r^q == x"""
+    if q == 2:
+        return sym_sqrt(x)
+    c = ctx()
+    e = z3.simplify(lift(x))
+    key = ('root', q, e.get_id())
+    if key in c.memo:
+        return SymReal(c.memo[key])
+    c.safety.append(('root-domain', list(c.pc), list(c.defs), e >= 0))
+    c.pc.append(e >= 0)
+    r = fresh(f'root{q}')
+    p = r
+    for _ in range(q - 1):
+        p = p * r
+    c.defs.append(z3.And(r >= 0, p == e))
+    c.memo[key] = r
+    c.nonneg.add(r.get_id())
+    return SymReal(r)
+
+
 def sym_exp(x):
     c = ctx()
     e = lift(x)
@@ -294,6 +315,9 @@ class SymReal:
             return SymReal(r)
         if f == Fraction(1, 2):
             return sym_sqrt(self)
+        if f.denominator in (2, 3, 4) and abs(f.numerator) <= 4:
+            root = sym_root(self, f.denominator)
+            return root ** int(f.numerator)
         raise Unsupported(f'fractional power {o}')
 
     def __rpow__(self, o):
